@@ -730,7 +730,7 @@ func check(id, tier, only string) int {
 			os.Exit(2)
 		}
 	}
-	if only == "" || os.Getenv("VERIF_EVIDENCE_PARTIAL") != "" {
+	if mutantPatch == "" && (only == "" || os.Getenv("VERIF_EVIDENCE_PARTIAL") != "") { // a run against a deliberately broken copy is not evidence
 		writeEvidence(meta, tier, total, jobsEv, violations, len(knownHits), time.Since(t0).Seconds())
 	}
 	ex := "exhaustive within the stated bounds"
